@@ -144,8 +144,9 @@ func (f *cfgFile) isolate(ui int) *cfgFile {
 	for li, l := range u.Lines {
 		if l.Blk != lastBlk {
 			h := f.Blocks[l.Blk].Hdr
-			if len(n.Blocks) > 0 {
-				h.Pre = pl("") // BOM only valid at file start
+			h.Pre = pl("")
+			if len(n.Blocks) == 0 {
+				h.Pre = f.Blocks[0].Hdr.Pre // the BOM is a file-level feature: it stays at the start
 			}
 			n.Blocks = append(n.Blocks, block{Ident: 0, Hdr: h})
 			lastBlk = l.Blk
@@ -266,6 +267,16 @@ func (f *cfgFile) signature(ui int) string {
 	var b strings.Builder
 	id := iso.Idents[0]
 	fmt.Fprintf(&b, "%s/%s/%s|", id.SecFeat, id.Form, id.SubFeat)
+	if u := iso.Units[0]; u.Typed != "" {
+		// typed units: the value itself decides (spelling classes), keep it in the signature
+		b.WriteString(u.Typed + "=")
+		for _, l := range u.Lines {
+			for _, p := range l.Val {
+				b.WriteString(p.Text)
+			}
+			b.WriteString(l.Sep.Kind + ";")
+		}
+	}
 	for _, blk := range iso.Blocks {
 		h := blk.Hdr
 		fmt.Fprintf(&b, "H(%s,%s,%s,%s,%s,%s)", h.Pre.Kind, h.Indent.Kind, h.Case.Kind, h.Mid.Kind, h.Trail.Kind, h.EOL.Kind)
@@ -342,7 +353,7 @@ var subClasses = []subClass{
 
 func genIdent(r *rand.Rand) ident {
 	id := ident{Sec: pick(r, genericSecs...)}
-	switch r.Intn(14) {
+	switch r.Intn(45) {
 	case 0:
 		id.Sec, id.SecFeat = "1num", "sec-digit-first"
 	case 1:
@@ -350,10 +361,10 @@ func genIdent(r *rand.Rand) ident {
 	case 2:
 		id.Sec, id.SecFeat = "9", "sec-digit-first"
 	}
-	switch x := r.Intn(10); {
-	case x < 4:
+	switch x := r.Intn(30); {
+	case x < 12:
 		id.Form = "nosub"
-	case x < 9:
+	case x < 29:
 		id.Form = "quoted"
 		sc := subClasses[r.Intn(len(subClasses))]
 		if r.Intn(3) == 0 {
@@ -373,7 +384,7 @@ func genHdr(r *rand.Rand, id ident, first bool) hdr {
 	if id.Typed && r.Intn(3) > 0 {
 		h.Case = pl(id.Sec)
 	}
-	if first && r.Intn(25) == 0 {
+	if first && r.Intn(40) == 0 {
 		h.Pre = piece{Kind: "bom", Text: "\xef\xbb\xbf", Plain: ""}
 	}
 	if r.Intn(8) == 0 {
@@ -485,7 +496,7 @@ func genValue(r *rand.Rand) []piece {
 			out = append(out, piece{Kind: "continuation-crlf", Text: "\\\r\n", Removable: true})
 		case x == 22:
 			out = append(out, piece{Kind: "utf8", Text: pick(r, "é", "日本", "ß"), Removable: true})
-		case x == 23:
+		case x == 23 && r.Intn(3) == 0:
 			out = append(out, piece{Kind: "invalid-utf8-byte", Text: pick(r, "\xff", "\xc3", "\x80"), Removable: true})
 		case x == 24:
 			out = append(out, piece{Kind: "control-char", Text: pick(r, "\x01", "\x7f", "\x1b"), Removable: true})
@@ -583,6 +594,18 @@ var typedSpecs = []typedSpec{
 	{"protocol", "version", false, "enum012"},
 	{"branch", "rebase", true, "rebase"},
 	{"core", "repositoryformatversion", false, "fmtver"},
+	// string settings: only used by the read -> Marshal -> read-back (rewrite) clause
+	{"remote", "url", true, "url"},
+	{"remote", "pushurl", true, "url"},
+	{"remote", "fetch", true, "refspec"},
+	{"branch", "remote", true, "word"},
+	{"branch", "merge", true, "word"},
+	{"branch", "description", true, "text"},
+	{"user", "name", false, "text"},
+	{"user", "email", false, "word"},
+	{"core", "worktree", false, "text"},
+	{"submodule", "url", true, "url"},
+	{"url", "insteadOf", true, "word"},
 }
 
 type spelling struct{ class, text string }
@@ -626,6 +649,12 @@ func genTypedValue(r *rand.Rand, kind string) (spelling, bool) {
 		return spelling{c, s}, true
 	case "fmtver":
 		return spelling{"dec", pick(r, "0", "1")}, true
+	case "url":
+		return spelling{"string", pick(r, "https://example.com/r.git", "git@host:p/r.git", "/srv/git/r.git", "../rel", "gh:o/r")}, true
+	case "refspec":
+		return spelling{"string", pick(r, "+refs/heads/*:refs/remotes/o/*", "refs/heads/main:refs/heads/main", "+refs/tags/*:refs/tags/*")}, true
+	case "word":
+		return spelling{"string", pick(r, "origin", "up", "refs/heads/main", "gh:", "a@b.c", ".")}, true
 	}
 	return spelling{}, false
 }
@@ -724,8 +753,11 @@ func genFile(r *rand.Rand, typedBias bool) *cfgFile {
 				l.Sep = pl(" = ")
 				if ts != nil {
 					l.Key = caseVariantTyped(r, ts.Key)
-					sp, _ := genTypedValue(r, ts.Kind)
-					if sp.class == "valueless" {
+					sp, ok := genTypedValue(r, ts.Kind)
+					if !ok { // free text
+						l.Val = genValue(r)
+						sp.class = "string"
+					} else if sp.class == "valueless" {
 						l.Sep = piece{Kind: "valueless", Text: "", Plain: ""}
 					} else if sp.text != "" {
 						l.Val = []piece{pl(sp.text)}
@@ -762,7 +794,7 @@ func genFile(r *rand.Rand, typedBias bool) *cfgFile {
 		for _, rf := range perBlock[bi] {
 			f.Blocks[bi].Lines = append(f.Blocks[bi].Lines, [2]int{rf.u, rf.l})
 		}
-		if len(f.Blocks[bi].Lines) > 0 && r.Intn(14) == 0 {
+		if len(f.Blocks[bi].Lines) > 0 && r.Intn(40) == 0 {
 			ul := f.Blocks[bi].Lines[0]
 			f.Units[ul[0]].Lines[ul[1]].Inline = piece{Kind: "inline-after-header", Text: "x", Plain: ""}
 		}
